@@ -10,6 +10,7 @@ that is verified by the connector case (add_connector writes the token into a:pr
 import importlib
 import inspect
 import io
+import os
 import itertools
 
 from vlib import core
@@ -588,6 +589,99 @@ def check_foreign_avlst(case):
                         % (mname, [stdadj[k][0] for k in keep], got, exp))
 
 
+def _chart_val_defaults():
+    """(parent complex type's element local name, child local name) -> schema default of the child's @val, read
+    from dml-chart.xsd (e.g. ('barChart', 'grouping') -> 'clustered', ('lineChart', 'grouping') -> 'standard')"""
+    from lxml import etree
+    xs = "{http://www.w3.org/2001/XMLSchema}"
+    root = etree.parse(os.path.join(core.REPO, "spec", "ISO-IEC-29500-4", "xsd", "dml-chart.xsd")).getroot()
+    types = {ct.get("name"): ct for ct in root.findall(xs + "complexType")}
+    dflt = {}
+    for name, ct in types.items():
+        for a in ct.findall(xs + "attribute"):
+            if a.get("name") == "val" and a.get("default") is not None:
+                dflt[name] = a.get("default")
+    out = {}
+    for name, ct in types.items():
+        if not name.endswith("Chart") or not name.startswith("CT_"):
+            continue
+        parent = name[3].lower() + name[4:]
+        # children declared directly or through the EG_*Shared groups
+        stack = [ct]
+        seen = set()
+        while stack:
+            node = stack.pop()
+            for el in node.iter(xs + "element"):
+                t = (el.get("type") or "").split(":")[-1]
+                if el.get("name") and t in dflt:
+                    out[(parent, el.get("name"))] = dflt[t]
+            for g in node.iter(xs + "group"):
+                ref = (g.get("ref") or "").split(":")[-1]
+                if ref and ref not in seen:
+                    seen.add(ref)
+                    for gd in root.findall(xs + "group"):
+                        if gd.get("name") == ref:
+                            stack.append(gd)
+    return out
+
+
+def check_respelled_chart(tname):
+    """A chart written by another producer may leave out every @val that equals its schema default: the chart part
+    means the same and must read back as the same chart type."""
+    import pptx
+    from pptx.enum.chart import XL_CHART_TYPE
+    from pptx.util import Emu
+
+    t = XL_CHART_TYPE[tname]
+    prs = pptx.Presentation()
+    slide = prs.slides.add_slide(prs.slide_layouts[6])
+    with core.sut("C20:add_chart"):
+        gf = slide.shapes.add_chart(t, Emu(0), Emu(0), Emu(4000000), Emu(3000000), _chart_data(tname, [2, 3, "str"]))
+    defaults = _chart_val_defaults()
+    removed = []
+    cs = gf.chart._chartSpace
+    for x in cs.iter():
+        if not isinstance(x.tag, str) or not x.tag.startswith("{%s}" % NS_C) or not x.tag.endswith("Chart"):
+            continue
+        parent = x.tag.rsplit("}", 1)[1]
+        for ch in x:
+            if not isinstance(ch.tag, str):
+                continue
+            key = (parent, ch.tag.rsplit("}", 1)[1])
+            if key in defaults and ch.get("val") == defaults[key]:
+                del ch.attrib["val"]
+                removed.append("%s/%s" % key)
+    if not removed:
+        return False
+    with core.sut("C20:chart_type-respelled"):
+        got = type(gf.chart)(cs, gf.chart.part).chart_type
+    if got is not t:
+        raise Violation("C20:chart-readback-respelled:%s" % tname,
+                        "%s with the default-valued @val of %s left out reads chart_type %r" % (tname, removed, got))
+    return True
+
+
+def check_respelled_shape(mname):
+    """p:cNvSpPr/@txBox="0" (the schema default written out, as other producers do) is still an auto shape."""
+    import pptx
+    from pptx.enum.shapes import MSO_SHAPE, MSO_SHAPE_TYPE
+
+    m = getattr(MSO_SHAPE, mname)
+    prs = pptx.Presentation()
+    slide = prs.slides.add_slide(prs.slide_layouts[6])
+    for spelling in ("0", "false"):
+        with core.sut("C20:add_shape"):
+            sp = slide.shapes.add_shape(m, 100, 100, 914400, 914400)
+        c = sp._element.find(".//{http://schemas.openxmlformats.org/presentationml/2006/main}cNvSpPr")
+        c.set("txBox", spelling)
+        with core.sut("C20:respelled-shape-read"):
+            fresh = slide.shapes[len(slide.shapes) - 1]
+            got, st_ = fresh.auto_shape_type, fresh.shape_type
+        if st_ is not MSO_SHAPE_TYPE.AUTO_SHAPE:
+            raise Violation("C20:shape-readback-respelled", "%s with txBox=%r reads shape_type %r" % (mname, spelling, st_))
+        _shape_type_check(m, got, "with txBox=%r" % spelling)
+
+
 def shape_cases(tier):
     from pptx.enum.shapes import MSO_SHAPE
 
@@ -910,7 +1004,7 @@ def api_cases():
 
 def jobs(tier):
     js = [{"kind": "enums"}, {"kind": "rejects"}, {"kind": "bindings"}, {"kind": "table"},
-          {"kind": "connectors"}, {"kind": "foreign-avlst"}]
+          {"kind": "connectors"}, {"kind": "foreign-avlst"}, {"kind": "respelled"}]
     for i in range(4):
         js.append({"kind": "api", "shard": i, "of": 4})
     for i in range(NSHAPE_SHARDS):
@@ -940,6 +1034,17 @@ def _collect_batch(pairs, kind, rec, known):
 def run_job(job, seed, tier, rec, known):
     k = job["kind"]
     classes, aliases = xml_enums()
+    if k == "respelled":
+        from pptx.enum.shapes import MSO_SHAPE
+        names = sorted(WRITABLE_CHART_TYPES)
+        done = []
+        f = _tag(run_plain(lambda n: done.append(n) if check_respelled_chart(n) else None, names, rec=rec, known=known),
+                 "respelled-chart")
+        snames = [m.name for m in MSO_SHAPE if m.xml_value]
+        f += _tag(run_plain(check_respelled_shape, snames, rec=rec, known=known), "respelled-shape")
+        rec.note_enum(len(names) + len(snames), len(done) + len(snames), sample=["respelled-chart", names[0]])
+        rec.cls("respelled:charts-with-default-valued-attributes=%d" % len(done))
+        return f
     if k == "foreign-avlst":
         from pptx.enum.shapes import MSO_SHAPE
         cases = [[m.name, mode] for m in MSO_SHAPE if m.xml_value for mode in ("last-only", "reversed", "skip-first", "absent")]
@@ -1071,6 +1176,10 @@ def replay(case):
         return collect(check_connector, c)
     if kind == "foreign-avlst":
         return collect(check_foreign_avlst, c)
+    if kind == "respelled-chart":
+        return collect(check_respelled_chart, c)
+    if kind == "respelled-shape":
+        return collect(check_respelled_shape, c)
     if kind == "api":
         return collect(check_api, c)
     if kind == "shape":
